@@ -48,6 +48,7 @@ impl VErrors {
     pub fn is_empty(&self) -> bool { self.n == 0 }
     pub fn make_err(self) -> Result<(), VErrors> { if self.n == 0 { Ok(()) } else { Err(self) } }
 }
+pub type AResult<T> = Result<T, VErr>;
 // extraction markers are no-ops here
 macro_rules! vx_contract { ($($t:tt)*) => {}; }
 macro_rules! vx_at { ($($t:tt)*) => {}; }
